@@ -118,6 +118,98 @@ Check (C15_peer_action :
   let s := fst (grun c (init c seeds) (ghost0 seeds) es) in
   let g := snd (grun c (init c seeds) (ghost0 seeds) es) in
   peer_msg s p = true -> In p (g_sent g) /\ In p (map fst (pend s)) /\ done s = false).
+Check (C15_closest_responsive :
+  forall c seeds es now l,
+  dist_inj c -> ~ In (c_local c) seeds -> c_kind c = KFind ->
+  let s := fst (grun c (init c seeds) (ghost0 seeds) es) in
+  let g := snd (grun c (init c seeds) (ghost0 seeds) es) in
+  snd (next_action c s now) = AFound l ->
+  kclosest c (c_k c) (g_answered g) l /\
+  (forall p w, In p (g_known g) -> p <> c_local c -> ~ In p l -> last_opt l = Some w ->
+               c_dist c p < c_dist c w -> In p (g_sent g) /\ ~ In p (g_answered g))).
+Check (C15_kclosest_unique :
+  forall c k ans l1 l2, kclosest c k ans l1 -> kclosest c k ans l2 -> l1 = l2).
+Check (C15_lookup_interface :
+  forall c seeds es now l,
+  dist_inj c -> ~ In (c_local c) seeds -> c_kind c = KFind ->
+  let s := fst (grun c (init c seeds) (ghost0 seeds) es) in
+  let g := snd (grun c (init c seeds) (ghost0 seeds) es) in
+  snd (next_action c s now) = AFound l ->
+  NoDup l /\ ~ In (c_local c) l /\ N.of_nat (length l) <= c_k c /\
+  (forall p, In p l -> In p (g_answered g) /\ In p (g_sent g)) /\
+  kclosest c (c_k c) (g_answered g) l /\
+  (1 <= c_k c -> l <> [])).
+Check (C15_send_closest :
+  forall c seeds es now p,
+  dist_inj c -> ~ In (c_local c) seeds ->
+  let s := fst (grun c (init c seeds) (ghost0 seeds) es) in
+  let g := snd (grun c (init c seeds) (ghost0 seeds) es) in
+  snd (next_action c s now) = ASend p ->
+  In p (g_known g) /\ ~ In p (g_sent g) /\ p <> c_local c /\
+  forall q, In q (g_known g) -> q <> c_local c -> ~ In q (g_sent g) -> c_dist c p <= c_dist c q).
+Check (C15_failed_means_nothing :
+  forall c seeds es now,
+  dist_inj c -> ~ In (c_local c) seeds ->
+  let s := fst (grun c (init c seeds) (ghost0 seeds) es) in
+  let g := snd (grun c (init c seeds) (ghost0 seeds) es) in
+  snd (next_action c s now) = AFailed ->
+  exhausted_at c s g /\
+  match c_kind c with
+  | KFind => g_answered g = [] \/ c_k c = 0
+  | KRecord => c_known c = 0 /\ g_got g = []
+  | KProviders => c_kprov c = [] /\ g_provs g = []
+  end).
+Check (C15_record_quorum_honest :
+  forall c seeds es now,
+  dist_inj c -> ~ In (c_local c) seeds ->
+  let s := fst (grun c (init c seeds) (ghost0 seeds) es) in
+  let g := snd (grun c (init c seeds) (ghost0 seeds) es) in
+  snd (next_action c s now) = ARecDone ->
+  c_needed c <= c_known c + N.of_nat (length (g_got g)) \/
+  (exhausted_at c s g /\ 1 <= c_known c + N.of_nat (length (g_got g)))).
+Check (C15_providers_exhaustive :
+  forall c seeds es now l,
+  dist_inj c -> ~ In (c_local c) seeds ->
+  let s := fst (grun c (init c seeds) (ghost0 seeds) es) in
+  let g := snd (grun c (init c seeds) (ghost0 seeds) es) in
+  snd (next_action c s now) = AProvDone l -> exhausted_at c s g).
+Check (C15_resolved_once :
+  forall c s p e es r,
+  Inv c s -> effective s p = true -> (e = EFail p \/ exists r0, e = EResp p r0) ->
+  let s1 := fst (run c (fst (step c s e)) es) in
+  effective s1 p = false /\ on_response c s1 p r = s1 /\ on_failure c s1 p = s1).
+Check (C15_timed_termination :
+  forall c U E T seeds ticks pf,
+  1 <= c_alpha c -> ~ In (c_local c) seeds -> (forall p, In p seeds -> In p U) -> net_in U E ->
+  (2 * length U + 1 <= pf)%nat -> ((N.to_nat T + 1) * length U + 1 <= ticks)%nat ->
+  let es := tdrive ticks pf c E T 0 (init c seeds) in
+  done (fst (run c (init c seeds) es)) = true /\
+  length (terminals (snd (run c (init c seeds) es))) = 1%nat /\
+  mono 0 es /\
+  (N.to_nat (clock 0 es) <= (N.to_nat T + 1) * length U)%nat).
+Check (C15_pr_irrelevant :
+  forall c s s' e,
+  peq s s' -> peq (fst (step c s e)) (fst (step c s' e)) /\ snd (step c s e) = snd (step c s' e)).
+Check (C15_frame :
+  forall eng m i c s,
+  nth_error eng i = Some (c, s) -> events_of i (snd (mstep eng m)) = [] ->
+  nth_error (fst (fst (mstep eng m))) i = Some (c, s)).
+Check (C15_query_isolation :
+  forall ms eng i c s,
+  nth_error eng i = Some (c, s) ->
+  exists s', nth_error (fst (mrun eng ms)) i = Some (c, s') /\
+             peq s' (fst (run c s (essential c s (events_of i (snd (mrun eng ms))))))).
+Check (C15_essential :
+  forall c es s s',
+  peq s s' ->
+  peq (fst (run c s es)) (fst (run c s' (essential c s es))) /\
+  visible (snd (run c s es)) = visible (snd (run c s' (essential c s es)))).
+Check (C15_order_irrelevant :
+  forall ms1 ms2 eng1 eng2 i c s,
+  nth_error eng1 i = Some (c, s) -> nth_error eng2 i = Some (c, s) ->
+  essential c s (events_of i (snd (mrun eng1 ms1))) = essential c s (events_of i (snd (mrun eng2 ms2))) ->
+  exists s1 s2, nth_error (fst (mrun eng1 ms1)) i = Some (c, s1) /\
+                nth_error (fst (mrun eng2 ms2)) i = Some (c, s2) /\ peq s1 s2).
 Check (C15_sent_is_sends :
   forall c es s g, g_sent (snd (grun c s g es)) = g_sent g ++ sends (snd (run c s es))).
 Check (C15_default_config :
